@@ -344,17 +344,27 @@ func (s *state) visitPrint(node *ast.PrintNode) {
 		}
 	}
 	if escape != ast.AutoescapeOff {
-		directives = append([]*ast.PrintDirectiveNode{{0, "escapeHtml", nil}}, directives...)
+		// autoescaping is applied last, as in the Go renderer.
+		directives = append(directives, &ast.PrintDirectiveNode{0, "escapeHtml", nil})
 	}
 
+	// Directives apply left to right, so the last one is the outermost call.
+	// changeNewlineToBr and insertWordBreaks cancel autoescaping because they
+	// add markup, but their soyutils implementations expect HTML and do not
+	// escape: escape their argument here (the Go directives do it themselves).
 	s.indent()
 	s.js(s.bufferName, " += ")
-	for _, dir := range directives {
-		s.js(PrintDirectives[dir.Name].Name, "(")
+	for i := len(directives) - 1; i >= 0; i-- {
+		s.js(PrintDirectives[directives[i].Name].Name, "(")
+		if escapesItsInput(directives[i].Name) {
+			s.js("soy.$$escapeHtml(")
+		}
 	}
 	s.walk(node.Arg)
-	for i := range directives {
-		var dir = directives[len(directives)-1-i]
+	for _, dir := range directives {
+		if escapesItsInput(dir.Name) {
+			s.js(")")
+		}
 		for _, arg := range dir.Args {
 			s.js(",")
 			s.walk(arg)
@@ -367,6 +377,10 @@ func (s *state) visitPrint(node *ast.PrintNode) {
 		s.js(")")
 	}
 	s.js(";\n")
+}
+
+func escapesItsInput(directiveName string) bool {
+	return directiveName == "changeNewlineToBr" || directiveName == "insertWordBreaks"
 }
 
 func (s *state) visitFunction(node *ast.FunctionNode) {
